@@ -14,6 +14,7 @@ import sys
 import tempfile
 import time
 import traceback
+import types
 from concurrent.futures import ThreadPoolExecutor
 
 from . import core
@@ -158,7 +159,26 @@ def run_jobs(pid, tier, seed, mod, only=None):
         out = os.path.join(tmp, "%s-%d.json" % (name, s))
         cmd = [sys.executable, "-m", "vt.runner", "--worker", "--prop", pid, "--tier", tier, "--seed", str(seed),
                "--law", name, "--shard", str(s), "--nshards", str(n), "--out", out]
-        p = subprocess.run(cmd, env=env, cwd=VERIF_DIR, capture_output=True, text=True)
+        limit = int(os.environ.get("VERIF_WORKER_TIMEOUT", "1500" if tier == "quick" else "14000"))
+        proc = subprocess.Popen(cmd, env=env, cwd=VERIF_DIR, stdout=subprocess.PIPE, stderr=subprocess.PIPE, text=True, start_new_session=True)
+        try:
+            so, se = proc.communicate(timeout=limit)
+        except subprocess.TimeoutExpired:
+            import signal
+            try:
+                os.killpg(proc.pid, signal.SIGKILL)
+            except OSError:
+                pass
+            so, se = proc.communicate()
+            return {"law": name, "shard": s, "error": "worker exceeded %d s and was killed (inconclusive, not a violation)" % limit}
+        finally:
+            # no process of this job's session may outlive it (real worker pools forked by the code under test)
+            import signal
+            try:
+                os.killpg(proc.pid, signal.SIGKILL)
+            except OSError:
+                pass
+        p = types.SimpleNamespace(returncode=proc.returncode, stdout=so, stderr=se)
         if not os.path.exists(out):
             return {"law": name, "shard": s, "error": "worker died rc=%s\n%s\n%s" % (p.returncode, p.stdout[-2000:], p.stderr[-4000:])}
         with open(out) as f:
